@@ -1109,3 +1109,6 @@ mutant("url-slalom-gate-end-by-width", "C16", "cspuz/puzzle/slalom.py", "       
 variant("url-slalom-gate-end-le", "C16", "cspuz/puzzle/slalom.py", "                ends.append((y - 1, x, 2))\n            if y + l < height:", "                ends.append((y - 1, x, 2))\n            if y + l <= height - 1:")
 mutant("url-nanro-border-order", "C16", "cspuz/puzzle/nanro.py", "            s.append(1 if block_id[y][x] != block_id[y + 1][x] else 0)\n    ret += convert_binary_seq(s)", "            s.append(1 if block_id[y][x] != block_id[y + 1][x] else 0)\n    ret = convert_binary_seq(s) + ret", "URL-W")
 mutant("url-nurimaze-mark-code", "C16", "cspuz/puzzle/nurimaze.py", "                v = mark[y][x] + 2", "                v = mark[y][x] + 1", "URL-W")
+mutant("rng-pinned-generator-ambient", "C19", "cspuz/puzzle/masyu.py", ["import sys\nimport subprocess\n", "        clue_penalty=lambda problem: count_non_default_values(problem, default=0, weight=10),\n        verbose=verbose,\n    )\n    return generated\n\n\nMASYU_COMBINATOR"],
+       ["import random\nimport sys\nimport subprocess\n", "        clue_penalty=lambda problem: count_non_default_values(problem, default=0, weight=10 + random.randint(0, 1)),\n        verbose=verbose,\n    )\n    return generated\n\n\nMASYU_COMBINATOR"], "RNG-9")
+variant("rng-pinned-generator-import-only", "C19", "cspuz/puzzle/masyu.py", "import sys\nimport subprocess\n", "import random  # noqa: F401\nimport sys\nimport subprocess\n", "an unused import draws nothing")
